@@ -579,3 +579,269 @@ Proof.
     unfold fields_of_day. destruct (days_to_date _) as [[y1 m1] d1]. destruct (days_to_date _) as [[y2 m2] d2]. cbn [vf_subsec].
     unfold NANOS_PER_DAY, NANOS_PER_SEC. destruct HU as [E | [E | [E | [E | [E | E]]]]]; rewrite E; lia.
 Qed.
+
+(* ================= the Date and Time types: their own parse loops ================= *)
+(* Date::parse understands the date symbols only; every other run is literal text (also the time symbols) *)
+Definition pp_of (kind now : Z) : text -> text -> res (option (punit * Z) * text) :=
+  match kind with 0 => parse_date_part now | 1 => parse_time_part | _ => parse_part now end.
+Definition parse_step_k (kind now : Z) (part s : text) : res (option (punit * Z) * text) :=
+  if is_literal_part part then (let? s' := remove_literal_part part s in Ok (None, s')) else pp_of kind now part s.
+Definition item_expected_k (kind d n off : Z) (it : pitem) : option (punit * Z) :=
+  match it with
+  | PField c w => if understands kind c then (if is_date_sym c then expected_date d c else expected_time n off c w) else None
+  | _ => None
+  end.
+Definition item_fits_k (kind d off : Z) (it : pitem) (rest : text) : Prop :=
+  match it with
+  | PField c w => understands kind c = true -> (is_date_sym c = true -> date_field_ok d c w) /\ field_delim off c w rest
+  | _ => True
+  end.
+
+Lemma parse_loop_step_k kind now part tl s pd pt :
+  parse_loop (pp_of kind now) (part :: tl) s pd pt =
+  (let? '(r, s') := parse_step_k kind now part s in let st := apply_exp (pd, pt) r in parse_loop (pp_of kind now) tl s' (fst st) (snd st)).
+Proof.
+  cbn [parse_loop]. unfold parse_step_k. destruct (is_literal_part part).
+  - destruct (remove_literal_part part s); reflexivity.
+  - destruct (pp_of kind now part s) as [[[[u v]|] s']| |]; cbn [bind apply_exp]; [destruct (is_date_unit u)| | |]; reflexivity.
+Qed.
+
+(* a run of a character the type does not understand: copied by format, skipped (same number of characters) by parse *)
+Lemma pdp_skip now c w rest : 1 <= w -> is_date_sym c = false -> parse_date_part now (run c w) (run c w ++ rest) = Ok (None, rest).
+Proof.
+  intros Hw H. rewrite pdp_unfold by exact Hw. cbv zeta. unfold is_date_sym in H. cbn [existsb] in H. rewrite !orb_false_iff in H.
+  destruct H as (H1 & H2 & H3 & H4 & H5 & H6 & H7 & H8 & _). rewrite H1, H2, H3, H4, H5, H6, H7, H8. rewrite remove_part_app. reflexivity.
+Qed.
+Lemma ptp_skip c w rest : 1 <= w -> is_time_sym c = false -> parse_time_part (run c w) (run c w ++ rest) = Ok (None, rest).
+Proof.
+  intros Hw H. rewrite ptp_unfold by exact Hw. cbv zeta. unfold is_time_sym in H. cbn [existsb] in H. rewrite !orb_false_iff in H.
+  destruct H as (H1 & H2 & H3 & H4 & H5 & H6 & H7 & H8 & H9 & H10 & H11 & _). rewrite H1, H2, H3, H4, H5, H6, H7, H8, H9, H10, H11.
+  rewrite remove_part_app. reflexivity.
+Qed.
+
+Lemma item_back_k kind now F d n off it rest : (kind = 0 \/ kind = 1) -> in_i32 d -> 0 <= n < NANOS_PER_DAY -> off_ok off ->
+  date_fields_agree F d -> time_fields_agree F n off -> item_ok it = true -> item_fits_k kind d off it rest ->
+  render_part (kind_fun kind d n off) (part_of it) = Ok (render_item kind F it) /\
+  parse_step_k kind now (part_of it) (render_item kind F it ++ rest) = Ok (item_expected_k kind d n off it, rest).
+Proof.
+  intros Hk Hd Hn Ho Ad At Hi Hf. pose proof (part_render kind F d n off it Ad At Hi) as R. split; [exact R|].
+  destruct it as [c w | c k | txt | k]; cbn [part_of render_item item_expected_k item_ok item_fits_k] in *.
+  - apply andb_true_iff in Hi as [Hw Hs]. apply Z.leb_le in Hw.
+    unfold parse_step_k. fold (run c w) in *. rewrite (sym_not_literal c w Hs Hw).
+    unfold render_part in R. rewrite run_first in R by exact Hw.
+    apply sym_not_special in Hs as Hs'. unfold NUL, APOS in R. destruct (Z.eqb_spec c 0); [lia|]. destruct (Z.eqb_spec c 39); [lia|].
+    destruct Hk as [-> | ->]; cbn [pp_of kind_fun understands] in *.
+    + (* Date *) destruct (is_date_sym c) eqn:Ed.
+      * destruct (Hf eq_refl) as [Hdf Hdl]. destruct (date_sym_back now d c w rest Hd Ed (Hdf eq_refl)) as (txt & E1 & E2).
+        { destruct Hdl as [A B]. split; [exact A|]. intros Hc. exfalso. unfold is_date_sym in Ed. cbn [existsb] in Ed. destruct Hc as [-> | ->]; discriminate Ed. }
+        rewrite E1 in R. injection R as <-. exact E2.
+      * unfold run. apply pdp_skip; [exact Hw | exact Ed].
+    + (* Time *) destruct (is_time_sym c) eqn:Et.
+      * destruct (Hf eq_refl) as [_ Hdl]. destruct (time_sym_back n off c w rest Hn Ho Et Hw Hdl) as (txt & E1 & E2).
+        rewrite E1 in R. injection R as <-.
+        assert (Ed : is_date_sym c = false).
+        { unfold is_date_sym, is_time_sym in *. cbn [existsb] in *. rewrite !orb_true_iff, !Z.eqb_eq in Et. rewrite !orb_false_iff, !Z.eqb_neq. lia. }
+        rewrite Ed. exact E2.
+      * unfold run. apply ptp_skip; [exact Hw | exact Et].
+  - rewrite !andb_true_iff, !negb_true_iff in Hi. destruct Hi as (((Hw & Hs) & H39) & H0). apply Z.leb_le in Hw.
+    unfold parse_step_k. fold (run c k). unfold is_literal_part. rewrite run_first by exact Hw. unfold NUL, APOS. rewrite H0, H39. cbn [orb].
+    unfold is_sym in Hs. apply orb_false_iff in Hs as [Hs1 Hs2].
+    destruct Hk as [-> | ->]; cbn [pp_of]; [apply pdp_skip | apply ptp_skip]; assumption.
+  - unfold parse_step_k, is_literal_part. cbn [first_char]. unfold NUL, APOS. cbn [Z.eqb Pos.eqb orb]. unfold remove_literal_part. cbv zeta. cbn [first_char].
+    unfold NUL, APOS. cbn [Z.eqb Pos.eqb].
+    assert (Hc : char_count (39 :: map nul_apos txt ++ [39]) = char_count txt + 2).
+    { unfold char_count. cbn [length]. rewrite app_length, map_length. cbn [length]. lia. }
+    rewrite Hc. assert (H1 : (1 <? char_count txt + 2) = true) by (apply Z.ltb_lt; unfold char_count; lia). rewrite H1.
+    change (39 :: map nul_apos txt ++ [39]) with ((39 :: map nul_apos txt) ++ [39]). rewrite rev_app_distr. cbn [rev app Z.eqb Pos.eqb andb].
+    replace (char_count txt + 2 - 1 - 1) with (char_count txt) by lia. rewrite remove_part_app. reflexivity.
+  - apply Z.leb_le in Hi. unfold parse_step_k, is_literal_part. destruct (Z.to_nat k) eqn:Ek; [lia|]. cbn [repeat_c first_char]. unfold NUL. cbn [Z.eqb orb].
+    unfold remove_literal_part. cbv zeta. cbn [first_char]. unfold NUL. cbn [Z.eqb].
+    change (0 :: repeat_c 0 n0) with (repeat_c 0 (S n0)). change (39 :: repeat_c 39 n0) with (repeat_c 39 (S n0)).
+    rewrite (remove_run 0 (char_count (repeat_c 0 (S n0))) rest (repeat_c 39 (S n0))); [reflexivity|]. rewrite !repeat_c_count. reflexivity.
+Qed.
+
+Fixpoint fits_chain_k (kind d off : Z) (F : vfields) (items : list pitem) (tail : text) : Prop :=
+  match items with [] => True | it :: tl => item_fits_k kind d off it (render kind F tl ++ tail) /\ fits_chain_k kind d off F tl tail end.
+
+Lemma loop_back_k kind now F d n off : (kind = 0 \/ kind = 1) -> in_i32 d -> 0 <= n < NANOS_PER_DAY -> off_ok off ->
+  date_fields_agree F d -> time_fields_agree F n off ->
+  forall items st tail, Forall (fun it => item_ok it = true) items -> fits_chain_k kind d off F items tail ->
+  parse_loop (pp_of kind now) (map part_of items) (render kind F items ++ tail) (fst st) (snd st)
+  = Ok (fold_left apply_exp (map (item_expected_k kind d n off) items) st).
+Proof.
+  intros Hk Hd Hn Ho Ad At. induction items as [|it tl IH]; intros st tail Hok Hfit.
+  - cbn [map parse_loop fold_left]. destruct st; reflexivity.
+  - inversion Hok as [|? ? Hi Hok']; subst. destruct Hfit as [Hf Hfit'].
+    cbn [map fold_left]. rewrite parse_loop_step_k, render_cons, <- app_assoc.
+    destruct (item_back_k kind now F d n off it (render kind F tl ++ tail) Hk Hd Hn Ho Ad At Hi Hf) as [_ B]. rewrite B. cbn [bind]. cbv zeta.
+    destruct st as [pd pt]. cbn [fst snd]. apply IH; assumption.
+Qed.
+
+Lemma expected_canon_k kind d n off it : item_ok it = true ->
+  item_expected_k kind d n off it = None \/ exists u, item_expected_k kind d n off it = Some (u, canon d n off u).
+Proof.
+  intros Hi. destruct it as [c w | c k | txt | k]; cbn [item_expected_k]; try (left; reflexivity).
+  destruct (understands kind c) eqn:Eu; [|left; reflexivity].
+  pose proof (expected_canon d n off (PField c w) Hi) as E. cbn [item_expected] in E.
+  destruct (is_date_sym c) eqn:Ed; [exact E|]. destruct (is_time_sym c) eqn:Et; [exact E|].
+  exfalso. unfold understands in Eu. rewrite Ed, Et in Eu. destruct kind as [|[p|p|]|p]; discriminate Eu.
+Qed.
+
+(* the assembly lemmas again, for any way of assigning expected fields to items that yields canonical values *)
+Section AssembleG.
+  Variables (d n off : Z) (items : list pitem) (ex : pitem -> option (punit * Z)).
+  Hypothesis Hd : in_i32 d.
+  Hypothesis Hn : 0 <= n < NANOS_PER_DAY.
+  Hypothesis Hcanon : forall it, In it items -> ex it = None \/ exists u, ex it = Some (u, canon d n off u).
+  Let R := fold_left apply_exp (map ex items) (PD0, PT0).
+  Definition has_g (u : punit) : bool := existsb (sets_unit u) (map ex items).
+
+  Lemma slot_Rg u : get_slot R u = if has_g u then Some (norm_slot u (canon d n off u)) else None.
+  Proof.
+    unfold R, has_g. rewrite (fold_slot (canon d n off) u (map ex items) (PD0, PT0)).
+    - destruct (existsb (sets_unit u) (map ex items)); [reflexivity|]. destruct u; reflexivity.
+    - intros r Hr. apply in_map_iff in Hr as (it & <- & Hin). apply Hcanon, Hin.
+  Qed.
+
+  Lemma assemble_date_g : has_g PYear = true -> (has_g PDayOfYear = true \/ (has_g PMonth = true /\ has_g PDayOfMonth = true)) ->
+    date_days_of (fst R) = Ok d.
+  Proof.
+    intros Hy Hmd. unfold date_days_of.
+    change (pd_doy (fst R)) with (get_slot R PDayOfYear). change (pd_year (fst R)) with (get_slot R PYear).
+    change (pd_month (fst R)) with (get_slot R PMonth). change (pd_dom (fst R)) with (get_slot R PDayOfMonth).
+    rewrite !slot_Rg, Hy. cbn [oz norm_slot]. unfold canon.
+    pose proof (year_i32 d Hd) as Yi. pose proof (c01_roundtrip d Hd) as RT. destruct (days_to_date_rd d) as [V Erd].
+    destruct (days_to_date d) as [[y m] dd]. destruct V as (Vy & Vm & Vd).
+    assert (Hd31 : dd <= 31) by (unfold mlen in Vd; repeat match type of Vd with context [if ?b then _ else _] => destruct b end; lia).
+    rewrite (wrap_i32_id y) by exact Yi.
+    destruct (has_g PDayOfYear) eqn:Hdoy.
+    - pose proof (cum_bounds y m dd Vm Vd) as Cb. unfold rd in Erd. rewrite rd_jan1.
+      assert (Hr : 1 <= 1 + d - ystart (astro y) <= ylen y) by lia.
+      rewrite wrap_u32_id by (unfold U32_MAX, ylen in *; destruct (leap y); lia).
+      destruct (year_doy_to_days_spec y (1 + d - ystart (astro y)) ltac:(lia)) as [A _]. rewrite A.
+      + f_equal. rewrite rd_jan1. lia.
+      + split; [exact Vy|]. split; [exact Hr|]. rewrite rd_jan1. replace (ystart (astro y) + (1 + d - ystart (astro y)) - 1) with d by lia. exact Hd.
+    - destruct Hmd as [X | [Hm Hdm]]; [discriminate|]. rewrite Hm, Hdm. cbn [oz].
+      rewrite !wrap_u32_id by (unfold U32_MAX; lia). exact RT.
+  Qed.
+
+  Variable sel : option punit.
+  Hypothesis Hsel : match sel with Some s => is_sub s = true | None => True end.
+  Hypothesis Hsub : forall u, is_sub u = true -> has_g u = match sel with Some s => punit_eqb s u | None => false end.
+
+  Lemma assemble_time_g : (has_g PHour = true \/ (has_g PPeriodHour = true /\ has_g PPeriod = true)) -> has_g PMinute = true -> has_g PSecond = true ->
+    time_nanos (snd R) = n / prec_unit sel * prec_unit sel.
+  Proof.
+    intros Hh Hmi Hs. unfold time_nanos.
+    change (pt_hour (snd R)) with (get_slot R PHour). change (pt_phour (snd R)) with (get_slot R PPeriodHour).
+    change (pt_period (snd R)) with (get_slot R PPeriod). change (pt_minute (snd R)) with (get_slot R PMinute).
+    change (pt_second (snd R)) with (get_slot R PSecond). change (pt_decis (snd R)) with (get_slot R PDecis).
+    change (pt_centis (snd R)) with (get_slot R PCentis). change (pt_millis (snd R)) with (get_slot R PMillis).
+    change (pt_micros (snd R)) with (get_slot R PMicros). change (pt_nanos (snd R)) with (get_slot R PNanos).
+    rewrite !slot_Rg, Hmi, Hs. rewrite (Hsub PDecis eq_refl), (Hsub PCentis eq_refl), (Hsub PMillis eq_refl), (Hsub PMicros eq_refl), (Hsub PNanos eq_refl).
+    cbn [oz norm_slot]. unfold canon. destruct (days_to_date d) as [[y m] dd].
+    set (h := n / NANOS_PER_HOUR). set (mi := n / NANOS_PER_MINUTE mod 60). set (s := n / NANOS_PER_SEC mod 60). set (ss := n mod NANOS_PER_SEC).
+    assert (Bh : 0 <= h < 24) by (subst h; revert Hn; unfold_consts; intros; lia).
+    assert (Bmi : 0 <= mi < 60) by (subst mi; lia). assert (Bs : 0 <= s < 60) by (subst s; lia).
+    assert (Bss : 0 <= ss < 1000000000) by (subst ss; unfold NANOS_PER_SEC; lia).
+    assert (Hsum : (h * 3600 + mi * 60 + s) * 1000000000 + ss = n) by (subst h mi s ss; revert Hn; unfold_consts; intros; lia).
+    assert (W : forall x, 0 <= x < 1000000000 -> wrap_u64 x = x) by (intros; unfold wrap_u64; lia).
+    assert (Hour : (match (if has_g PHour then Some (wrap_u64 h) else None) with
+                    | Some h0 => h0 * 3600 * NANOS_PER_SEC
+                    | None => (oz (if has_g PPeriodHour then Some (wrap_u64 (h mod 12)) else None) 0 +
+                               oz (if has_g PPeriod then Some (if (if h <? 12 then 0 else 1) =? 0 then 0 else 12) else None) 0) * 3600 * NANOS_PER_SEC end)
+                   = h * 3600 * NANOS_PER_SEC).
+    { destruct (has_g PHour); [rewrite W by lia; reflexivity|]. destruct Hh as [X | [H1 H2]]; [discriminate|]. rewrite H1, H2. cbn [oz].
+      pose proof (Z.mod_pos_bound h 12 ltac:(lia)). rewrite W by lia. destruct (Z.ltb_spec h 12); cbn [Z.eqb]; f_equal; f_equal; lia. }
+    rewrite Hour. rewrite !W by lia. clearbody h mi s ss. unfold prec_unit, NANOS_PER_SEC.
+    destruct sel as [s0|].
+    - destruct s0; try discriminate Hsel; cbn [punit_eqb oz sub_scale]; rewrite ?W by (try lia; split; [apply Z.div_pos; lia | apply Z.div_lt_upper_bound; lia]); lia.
+    - cbn [oz]. lia.
+  Qed.
+End AssembleG.
+
+(* ---------- Date ---------- *)
+Theorem date_roundtrip now d items : in_i32 d -> swf None items = true ->
+  fits_chain_k 0 d 0 (fields_of_day d 0 0) items [] ->
+  let ex := item_expected_k 0 d 0 0 in
+  has_g items ex PYear = true -> (has_g items ex PDayOfYear = true \/ (has_g items ex PMonth = true /\ has_g items ex PDayOfMonth = true)) ->
+  exists txt, date_format d (unparse items) = Ok txt /\ date_parse now txt (unparse items) = Ok d.
+Proof.
+  intros Hd Hswf Hfit ex Hy Hmd. pose proof (swf_items_ok items None Hswf) as Hok.
+  exists (render 0 (fields_of_day d 0 0) items). split; [apply date_format_items; exact Hswf|].
+  set (F := fields_of_day d 0 0) in *.
+  assert (Ad : date_fields_agree F d) by apply fields_date_agree.
+  assert (At : time_fields_agree F 0 0) by (apply fields_time_agree; unfold NANOS_PER_DAY; lia).
+  unfold date_parse. rewrite (tokenizer_items items Hswf). rewrite <- (app_nil_r (render 0 F items)).
+  pose proof (loop_back_k 0 now F d 0 0 ltac:(left; reflexivity) Hd ltac:(unfold NANOS_PER_DAY; lia) off_ok_0 Ad At items (PD0, PT0) [] Hok Hfit) as LB.
+  cbn [fst snd pp_of] in LB. rewrite LB. clear LB. cbn [bind].
+  assert (Hc : forall it, In it items -> ex it = None \/ exists u, ex it = Some (u, canon d 0 0 u)).
+  { intros it Hin. apply expected_canon_k. rewrite Forall_forall in Hok. apply Hok, Hin. }
+  pose proof (assemble_date_g d 0 0 items ex Hd Hc Hy Hmd) as AD. unfold ex in AD.
+  destruct (fold_left apply_exp (map (item_expected_k 0 d 0 0) items) (PD0, PT0)) as [pd pt]. cbn [fst] in AD. exact AD.
+Qed.
+
+Lemma trunc_fields U ln : unit_ok U -> 0 <= ln < 86400000000000 ->
+  ln / U * U / 3600000000000 = ln / 3600000000000 /\ (ln / U * U / 60000000000) mod 60 = (ln / 60000000000) mod 60 /\
+  (ln / U * U / 1000000000) mod 60 = (ln / 1000000000) mod 60 /\ (ln / U * U) mod 1000000000 / U = ln mod 1000000000 / U.
+Proof. intros [-> | [-> | [-> | [-> | [-> | ->]]]]] H; lia. Qed.
+
+(* ---------- Time (with a zone field) ---------- *)
+Theorem time_roundtrip t items sel : Inv_tm t -> swf None items = true ->
+  let off := tm_off t in let ln := (tm_nanos t + off * NANOS_PER_SEC) mod NANOS_PER_DAY in
+  fits_chain_k 1 0 off (fields_of_day 0 ln off) items [] ->
+  let ex := item_expected_k 1 0 ln off in
+  (has_g items ex PHour = true \/ (has_g items ex PPeriodHour = true /\ has_g items ex PPeriod = true)) ->
+  has_g items ex PMinute = true -> has_g items ex PSecond = true ->
+  match sel with Some s => is_sub s = true | None => True end ->
+  (forall u, is_sub u = true -> has_g items ex u = match sel with Some s => punit_eqb s u | None => false end) ->
+  has_g items ex POffset = true ->
+  exists txt t', time_format t (unparse items) = Ok txt /\ time_parse txt (unparse items) = Ok t' /\
+    tm_off t' = off /\ (tm_nanos t' + off * NANOS_PER_SEC) mod NANOS_PER_DAY = ln / prec_unit sel * prec_unit sel /\ Inv_tm t' /\
+    time_format t' (unparse items) = Ok txt.
+Proof.
+  intros Ht Hswf. cbv zeta. set (off := tm_off t). set (ln := (tm_nanos t + off * NANOS_PER_SEC) mod NANOS_PER_DAY).
+  intros Hfit Hh Hmi Hs Hsel Hsub Hz. destruct Ht as [Hn0 Ho]. fold off in Ho.
+  pose proof (swf_items_ok items None Hswf) as Hok.
+  assert (Hln : 0 <= ln < NANOS_PER_DAY) by (subst ln; apply Z.mod_pos_bound; unfold NANOS_PER_DAY; lia).
+  set (F := fields_of_day 0 ln off) in *.
+  assert (Ad : date_fields_agree F 0) by apply fields_date_agree. assert (At : time_fields_agree F ln off) by (apply fields_time_agree; exact Hln).
+  assert (H0 : in_i32 0) by (unfold in_i32, I32_MIN, I32_MAX; lia).
+  exists (render 1 F items). rewrite (time_format_items t items (conj Hn0 Ho) Hswf). fold off ln F.
+  set (ex := item_expected_k 1 0 ln off) in *.
+  assert (Hc : forall it, In it items -> ex it = None \/ exists u, ex it = Some (u, canon 0 ln off u)).
+  { intros it Hin. apply expected_canon_k. rewrite Forall_forall in Hok. apply Hok, Hin. }
+  pose proof (assemble_time_g 0 ln off items ex Hln Hc sel Hsel Hsub Hh Hmi Hs) as AT.
+  pose proof (slot_Rg 0 ln off items ex Hc POffset) as SO. rewrite Hz in SO. cbn [norm_slot] in SO.
+  assert (Ec : canon 0 ln off POffset = off) by (unfold canon; destruct (days_to_date 0) as [[? ?] ?]; reflexivity). rewrite Ec in SO.
+  assert (Ew : wrap_i32 off = off) by (unfold off_ok, SECS_PER_DAY in Ho; unfold wrap_i32; lia). rewrite Ew in SO.
+  assert (LB : parse_loop parse_time_part (map part_of items) (render 1 F items) PD0 PT0 = Ok (fold_left apply_exp (map ex items) (PD0, PT0))).
+  { pose proof (loop_back_k 1 0 F 0 ln off ltac:(right; reflexivity) H0 Hln Ho Ad At items (PD0, PT0) [] Hok Hfit) as LB.
+    cbn [fst snd pp_of] in LB. rewrite app_nil_r in LB. exact LB. }
+  unfold time_parse. rewrite (tokenizer_items items Hswf), LB. cbn [bind].
+  destruct (fold_left apply_exp (map ex items) (PD0, PT0)) as [pd pt]. cbn [fst snd get_slot] in AT, SO.
+  cbv beta iota. rewrite AT. pose proof (prec_unit_ok sel Hsel) as HU. set (U := prec_unit sel) in *. set (tn := ln / U * U).
+  assert (Htn : 0 <= tn <= ln) by (apply trunc_le; [exact HU | lia]).
+  unfold time_from_nanos. destruct (Z.leb_spec NANOS_PER_DAY tn); [lia|]. cbn [bind]. rewrite SO.
+  destruct (c10_offset_from_seconds off) as [Oa _]. rewrite (Oa Ho). cbn [bind].
+  destruct (c10_time_as_offset (mkTM tn 0) off) as (t' & E & En & Eo & El); [unfold in_day, D; cbn [tm_nanos]; lia | exact Ho|].
+  rewrite E. cbn [tm_nanos] in En, El. unfold D in *.
+  assert (It' : Inv_tm t').
+  { split; [rewrite En; apply Z.mod_pos_bound; unfold NANOS_PER_DAY; lia | rewrite Eo; exact Ho]. }
+  eexists. split; [reflexivity|]. split; [reflexivity|]. split; [exact Eo|]. split; [exact El|]. split; [exact It'|].
+  rewrite (time_format_items t' items It' Hswf). rewrite Eo, El. f_equal. fold F.
+  apply render_same; [| exact Hok |].
+  - destruct (trunc_fields U ln HU ltac:(revert Hln; unfold NANOS_PER_DAY; intros; exact Hln)) as (T1 & T2 & T3 & _).
+    unfold same_but_subsec, F, fields_of_day. destruct (days_to_date 0) as [[y m] dd].
+    cbn [vf_bc vf_year vf_month vf_day vf_doy vf_wd vf_week vf_hour vf_minute vf_second vf_offset]. subst tn.
+    unfold NANOS_PER_HOUR, NANOS_PER_MINUTE, NANOS_PER_SEC. rewrite T1, T2, T3. repeat split.
+  - intros w Hin.
+    assert (Hh' : has_g items ex (n_unit w) = true).
+    { unfold has_g. apply existsb_exists. exists (ex (PField 110 w)). split; [apply in_map; exact Hin|]. unfold ex. cbn [item_expected_k understands].
+      change (is_time_sym 110) with true. change (is_date_sym 110) with false. cbv iota. unfold expected_time. cbv zeta. cbn [Z.eqb Pos.eqb orb sets_unit]. apply punit_eqb_eq. reflexivity. }
+    rewrite Forall_forall in Hok. pose proof (Hok _ Hin) as Hi. cbn [item_ok] in Hi. apply andb_true_iff in Hi as [Hw _]. apply Z.leb_le in Hw.
+    destruct (n_unit_scale w Hw) as [Esc Hsb]. rewrite (Hsub _ Hsb) in Hh'. destruct sel as [s0|]; [|discriminate]. apply punit_eqb_eq in Hh'. subst s0.
+    destruct (trunc_fields U ln HU ltac:(revert Hln; unfold NANOS_PER_DAY; intros; exact Hln)) as (_ & _ & _ & T4).
+    rewrite <- Esc. change (sub_scale (n_unit w)) with U. subst tn.
+    unfold F, fields_of_day. destruct (days_to_date 0) as [[y1 m1] d1]. cbn [vf_subsec]. unfold NANOS_PER_SEC. exact T4.
+Qed.
